@@ -204,6 +204,14 @@ class Flattener(object):
                 if f.value.id == 'cls' and 'staticmethod' not in deco:
                     return None
                 return callee, (None if 'staticmethod' in deco else f.value)
+            # a local name bound once to a copy of self is an object of the same class: its private methods are known
+            if cls is not None and getattr(self, '_node', None) is not None and f.value.id not in prog.classes:
+                d = self._only_def(f.value.id)
+                if d is not None and self._is_copy_of_self(d.value, cls):
+                    callee = prog.resolve_method(cls, f.attr)
+                    if callee is not None and not self._is_overridden(cls, f.attr, callee) and \
+                            not ({'classmethod', 'property', 'staticmethod'} & set(_decorators(callee.node))):
+                        return callee, f.value
             ci = prog.classes.get(f.value.id)
             if ci is not None:
                 callee = prog.resolve_method(ci, f.attr)
@@ -219,13 +227,27 @@ class Flattener(object):
                 return self.local_defs[f.id], None
             # a local name bound once to one of the closures (`book = book_demand`) is that closure
             if getattr(self, '_node', None) is not None:
-                d = self._single_def(f.id)
+                d = self._only_def(f.id)
                 if d is not None and isinstance(d.value, ast.Name) and d.value.id in self.local_defs:
                     return self.local_defs[d.value.id], None
             callee = prog.functions.get((self.fi.module.rel, f.id))
             if callee is not None:
                 return callee, None
         return None
+
+    def _is_copy_of_self(self, e, cls, depth=0):
+        if not isinstance(e, ast.Call) or depth > 2:
+            return False
+        fn = e.func
+        nm = fn.attr if isinstance(fn, ast.Attribute) else (fn.id if isinstance(fn, ast.Name) else None)
+        if nm in ('deepcopy', 'copy') and len(e.args) == 1 and isinstance(e.args[0], ast.Name) and e.args[0].id == 'self':
+            return True
+        if isinstance(fn, ast.Attribute) and isinstance(fn.value, ast.Name) and fn.value.id == 'self' and not e.args:
+            m = self.prog.resolve_method(cls, fn.attr)
+            if m is not None:
+                rets = [r for r in ast.walk(m.node) if isinstance(r, ast.Return)]
+                return bool(rets) and all(r.value is not None and self._is_copy_of_self(r.value, cls, depth + 1) for r in rets)
+        return False
 
     def _is_overridden(self, cls, name, callee):
         key = (cls.name, name)
@@ -1158,6 +1180,14 @@ class Flattener(object):
             out.extend(self.desugar_stmt(s))
         return out
 
+    def _only_def(self, name):
+        """the one assignment that binds the name in the function (any number of reads)"""
+        stores = [n for n in ast.walk(self._node) if isinstance(n, ast.Name) and n.id == name and isinstance(n.ctx, (ast.Store, ast.Del))]
+        defs = [n for n in ast.walk(self._node) if isinstance(n, ast.Assign) and len(n.targets) == 1 and
+                isinstance(n.targets[0], ast.Name) and n.targets[0].id == name]
+        params = {a.arg for a in self._node.args.args + self._node.args.posonlyargs + self._node.args.kwonlyargs}
+        return defs[0] if len(defs) == 1 and len(stores) == 1 and name not in params else None
+
     def _single_def(self, name):
         defs = [n for n in ast.walk(self._node) if isinstance(n, ast.Assign) and len(n.targets) == 1 and
                 isinstance(n.targets[0], ast.Name) and n.targets[0].id == name]
@@ -1189,7 +1219,7 @@ class Flattener(object):
         if isinstance(e, ast.Dict):
             return e
         if isinstance(e, ast.Name):
-            d = self._single_def(e.id)
+            d = self._only_def(e.id)
             return d.value if d is not None and isinstance(d.value, ast.Dict) else None
         if isinstance(e, ast.Attribute) and isinstance(e.value, ast.Name) and e.value.id in ('self', 'cls'):
             lit = self._class_literal(e.attr)
@@ -1474,7 +1504,7 @@ class Flattener(object):
         if isinstance(e, ast.Tuple) and all(isinstance(x, (ast.Name, ast.Attribute)) for x in e.elts):
             return list(e.elts)
         if isinstance(e, ast.Name):
-            d = self._single_def(e.id)
+            d = self._only_def(e.id)
             return self._exception_tuple(d.value, depth + 1) if d is not None else None
         if isinstance(e, ast.Attribute) and isinstance(e.value, ast.Name) and e.value.id in ('self', 'cls'):
             lit = self._class_literal(e.attr)
